@@ -11,16 +11,29 @@ use crate::tape::{self, ELEM_ATTRS};
 
 use self::attributes::{Attribute, Attributes};
 
-/// An element name: interned (reader side) or literal (user constructed).
-#[derive(Clone)]
-pub(crate) enum NameRef<'a> {
-    Id(u8),
-    Lit(Cow<'a, [u8]>),
+/// Leak `v` and hand out a `'static` view: the model's event types own no heap memory, so
+/// that they have no drop glue (see errors.rs); leaking is harmless in a verification model.
+pub(crate) fn leak(v: Vec<u8>) -> &'static [u8] {
+    Box::leak(v.into_boxed_slice())
 }
 
-impl NameRef<'_> {
+fn cow_bytes<'a>(c: Cow<'a, str>) -> &'a [u8] {
+    match c {
+        Cow::Borrowed(s) => s.as_bytes(),
+        Cow::Owned(s) => leak(s.into_bytes()),
+    }
+}
+
+/// An element name: interned (reader side) or literal (user constructed).
+#[derive(Clone, Copy)]
+pub(crate) enum NameRef<'a> {
+    Id(u8),
+    Lit(&'a [u8]),
+}
+
+impl<'a> NameRef<'a> {
     #[inline]
-    fn bytes(&self) -> &[u8] {
+    fn bytes(&self) -> &'a [u8] {
         match self {
             NameRef::Id(i) => tape::name_bytes(*i),
             NameRef::Lit(c) => c,
@@ -29,7 +42,7 @@ impl NameRef<'_> {
     fn owned(self) -> NameRef<'static> {
         match self {
             NameRef::Id(i) => NameRef::Id(i),
-            NameRef::Lit(c) => NameRef::Lit(Cow::Owned(c.into_owned())),
+            NameRef::Lit(c) => NameRef::Lit(leak(c.to_vec())),
         }
     }
 }
@@ -58,12 +71,7 @@ pub struct BytesStart<'a> {
 
 impl<'a> BytesStart<'a> {
     pub fn new<C: Into<Cow<'a, str>>>(name: C) -> Self {
-        let name: Cow<'a, str> = name.into();
-        let bytes: Cow<'a, [u8]> = match name {
-            Cow::Borrowed(s) => Cow::Borrowed(s.as_bytes()),
-            Cow::Owned(s) => Cow::Owned(s.into_bytes()),
-        };
-        Self { name: NameRef::Lit(bytes), slot: 0, attr0: 0, nattr: 0 }
+        Self { name: NameRef::Lit(cow_bytes(name.into())), slot: 0, attr0: 0, nattr: 0 }
     }
 
     /// Model constructor: start tag with the interned name `id` and no attributes.
@@ -89,12 +97,7 @@ impl<'a> BytesStart<'a> {
     }
 
     pub fn to_end(&self) -> BytesEnd<'_> {
-        BytesEnd {
-            name: match &self.name {
-                NameRef::Id(i) => NameRef::Id(*i),
-                NameRef::Lit(c) => NameRef::Lit(Cow::Borrowed(&**c)),
-            },
-        }
+        BytesEnd { name: self.name }
     }
 
     pub fn name(&self) -> QName<'_> {
@@ -146,12 +149,7 @@ pub struct BytesEnd<'a> {
 
 impl<'a> BytesEnd<'a> {
     pub fn new<C: Into<Cow<'a, str>>>(name: C) -> Self {
-        let name: Cow<'a, str> = name.into();
-        let bytes: Cow<'a, [u8]> = match name {
-            Cow::Borrowed(s) => Cow::Borrowed(s.as_bytes()),
-            Cow::Owned(s) => Cow::Owned(s.into_bytes()),
-        };
-        Self { name: NameRef::Lit(bytes) }
+        Self { name: NameRef::Lit(cow_bytes(name.into())) }
     }
     pub const fn from_id(id: u8) -> Self {
         Self { name: NameRef::Id(id) }
@@ -187,43 +185,43 @@ impl Deref for BytesEnd<'_> {
 
 /// Model of `BytesText`.  `escape` tells the writer whether the content still has to be
 /// escaped (`BytesText::new`) or is written as is (`from_escaped`, reader-produced).
-#[derive(Clone, PartialEq, Eq)]
+#[derive(Clone, Copy, PartialEq, Eq)]
 pub struct BytesText<'a> {
-    pub(crate) content: Cow<'a, [u8]>,
+    pub(crate) content: &'a [u8],
     pub(crate) escape: bool,
+    /// `content` is really `'static` (reader-produced): `into_owned` need not copy
+    pub(crate) stat: bool,
 }
 
 impl<'a> BytesText<'a> {
     pub fn new(content: &'a str) -> Self {
-        Self { content: Cow::Borrowed(content.as_bytes()), escape: true }
+        Self { content: content.as_bytes(), escape: true, stat: false }
     }
     pub fn from_escaped<C: Into<Cow<'a, str>>>(content: C) -> Self {
-        let c: Cow<'a, str> = content.into();
-        let bytes: Cow<'a, [u8]> = match c {
-            Cow::Borrowed(s) => Cow::Borrowed(s.as_bytes()),
-            Cow::Owned(s) => Cow::Owned(s.into_bytes()),
-        };
-        Self { content: bytes, escape: false }
+        Self { content: cow_bytes(content.into()), escape: false, stat: false }
     }
     pub(crate) fn from_static(t: &'static str) -> Self {
-        Self { content: Cow::Borrowed(t.as_bytes()), escape: false }
+        Self { content: t.as_bytes(), escape: false, stat: true }
     }
     pub fn into_owned(self) -> BytesText<'static> {
-        BytesText { content: Cow::Owned(self.content.into_owned()), escape: self.escape }
+        if self.stat {
+            // SAFETY: `stat` is only set by `from_static`
+            let c: &'static [u8] = unsafe { std::mem::transmute::<&'a [u8], &'static [u8]>(self.content) };
+            BytesText { content: c, escape: self.escape, stat: true }
+        } else {
+            BytesText { content: leak(self.content.to_vec()), escape: self.escape, stat: true }
+        }
     }
     pub fn into_inner(self) -> Cow<'a, [u8]> {
-        self.content
+        Cow::Borrowed(self.content)
     }
     pub fn borrow(&self) -> BytesText<'_> {
-        BytesText { content: Cow::Borrowed(&*self.content), escape: self.escape }
+        *self
     }
     /// Model: entity references are not interpreted (tape texts are entity-free by
     /// construction); UTF-8 is not re-validated.
     pub fn unescape(&self) -> Result<Cow<'a, str>> {
-        Ok(match &self.content {
-            Cow::Borrowed(b) => Cow::Borrowed(unsafe { std::str::from_utf8_unchecked(b) }),
-            Cow::Owned(v) => Cow::Owned(unsafe { String::from_utf8_unchecked(v.clone()) }),
-        })
+        Ok(Cow::Borrowed(unsafe { std::str::from_utf8_unchecked(self.content) }))
     }
 }
 
@@ -236,7 +234,7 @@ impl fmt::Debug for BytesText<'_> {
 impl Deref for BytesText<'_> {
     type Target = [u8];
     fn deref(&self) -> &[u8] {
-        &self.content
+        self.content
     }
 }
 
